@@ -103,6 +103,12 @@ Reconnect == /\ epoch < Epochs
 Next == Reconnect \/ \E w \in Writes : T(w) \/ \E c \in Cbs : V1(w, c) \/ V2(w, c)
 Spec == Init /\ [][Next]_vars
 
+\* Liveness (checked by TLC on the atomic and on the split model, one epoch): under weak fairness of every verdict step
+\* and of every timer callback whose timeout elapses, every write is eventually decided - and stays decided with one outcome
+Fair == \A w \in Writes : WF_vars(T(w)) /\ \A c \in Cbs : WF_vars(V1(w, c)) /\ WF_vars(V2(w, c))
+LiveSpec == Init /\ [][Next]_vars /\ Fair
+EveryWriteDecided == \A w \in Writes : <>[](Len(outcome[w]) >= 1)
+
 Quiescent == /\ \A w \in Writes : \A c \in Cbs : verdict[w][c] = "silent" \/ vpc[w][c] = "done"
              /\ \A w \in Writes : expires[w] => w \in tdone
 AllApprove(w) == \A c \in Cbs : verdict[w][c] = "approve"
